@@ -221,3 +221,120 @@ func vCheckCrashPoint(id string, h *vDB, base *vrt.FS, acks []vAck, k int, async
 		}
 	}
 }
+
+// ---- C13: asynchronous WAL ----
+
+// vExpectPrefix: the recovered database equals the reference map after some prefix of the acknowledged calls,
+// and that prefix contains every call acknowledged before the last rotation that completed before the kill.
+func vExpectPrefix(id string, fs *vrt.FS, h2 *vDB, universe [][]byte, acks []vAck, rotations []string, acksAtRotation []int, k int) {
+	// number of calls that must have survived: those made before the last rotation that completed before the kill
+	must := 0
+	for r, mark := range rotations {
+		if fs.Index(mark) <= k && acksAtRotation[r] > must {
+			must = acksAtRotation[r]
+		}
+	}
+	// read the recovered state
+	type st struct {
+		val []byte
+		ok  bool
+	}
+	got := make([]st, len(universe))
+	for i, key := range universe {
+		v, err := h2.db.GetBytes(key)
+		if err != nil && !errors.Is(err, ErrNotFound) {
+			vrt.Fail(id + "/read-fails")
+			return
+		}
+		got[i] = st{v, err == nil}
+	}
+	// is there a prefix length p in [must, len(acks)] whose map equals the recovered state?
+	match := false
+	for p := must; p <= len(acks); p++ {
+		same := true
+		for i, key := range universe {
+			var val []byte
+			present := false
+			for _, a := range acks[:p] {
+				if vrt.EqBytes(a.key, key) {
+					val, present = a.val, a.val != nil
+				}
+			}
+			if present != got[i].ok {
+				same = false
+			} else if present {
+				same = same && vrt.EqBytes(val, got[i].val)
+			}
+		}
+		match = match || same
+	}
+	if vrt.Symbolic() {
+		for i := range universe {
+			if got[i].ok {
+				vrt.Note(vrt.K("key", i, "present len", len(got[i].val), "must", must, "k", k))
+			} else {
+				vrt.Note(vrt.K("key", i, "absent must", must, "k", k))
+			}
+		}
+	}
+	vrt.Assert(match, id+"/state-is-a-prefix-that-contains-everything-before-the-last-rotation")
+}
+
+// H_C13_AsyncCrash: asynchronous WAL. After a kill at any system-call boundary reopening succeeds and the
+// database equals the reference map after a prefix of the acknowledged calls; the prefix contains at least
+// every call that preceded the last memstore rotation.
+func H_C13_AsyncCrash() {
+	vrt.RandPromoteBudget(0)
+	universe := vUniverse
+	h := vNewDBEnvU(universe)
+	defer h.fs.Cleanup()
+	base := h.fs.Base()
+	h.fs.TraceStart()
+	vrt.Assert(h.open(vCrashOpts(true)...) == nil, "async/open-no-error")
+	s := &vSession{h: h}
+	var rotations []string
+	var acksAtRotation []int
+	steps := 3
+	if vrt.Thorough() {
+		steps = 4
+	}
+	n := vrt.Range("steps", 1, steps)
+	for i := 0; i < n; i++ {
+		switch vrt.Choose(vrt.K("op", i), 3) {
+		case 0:
+			s.put(h.ref[vrt.Choose(vrt.K("key", i), len(h.ref))].key)
+		case 1:
+			s.del(h.ref[vrt.Choose(vrt.K("key", i), len(h.ref))].key)
+		case 2:
+			h.db.rwLock.Lock()
+			err := h.db.rotateWalAndFlushMemstore()
+			h.db.rwLock.Unlock()
+			vrt.Assert(err == nil, "async/rotation-no-error")
+			rotations = append(rotations, h.fs.Mark(vrt.K("rot", len(rotations))))
+			acksAtRotation = append(acksAtRotation, len(s.acks))
+			h.maybeFlush()
+			vrt.Reach("async/rotation")
+		}
+	}
+	h.runPendingNative()
+	h.fs.TraceStop()
+	for _, k := range h.fs.CrashPoints("crash") {
+		vClassifyCrashPoint(h.fs, k)
+		img := h.fs.Image(k, base, nil)
+		h2 := &vDB{fs: img, dir: h.fs.Rebase(img, h.dir), ref: h.ref}
+		oerr := h2.open(vCrashOpts(true)...)
+		if oerr != nil {
+			vrt.Note(vrt.K("kill after call", k) + ": open: " + oerr.Error())
+		}
+		vrt.Assert(oerr == nil, "async/reopen-after-kill-succeeds")
+		if oerr == nil {
+			vExpectPrefix("async", h.fs, h2, universe, s.acks, rotations, acksAtRotation, k)
+			if !vrt.Symbolic() {
+				h2.db.Close()
+			}
+		}
+		img.Cleanup()
+	}
+	vrt.TraceBool("done", true)
+	vrt.Reach("async/end")
+}
